@@ -1,7 +1,7 @@
 (** C08.Proofs3 — one lemma per rule group: the model of each check of event_auth.rs /
     room_member.rs equals the corresponding rule of the specification. *)
 From Base Require Import Prelude Sx Json Rules.
-From C08 Require Import Types Model Spec Proofs1 Proofs2.
+From C08 Require Import Types Model Spec Known Proofs1 Proofs2.
 From Coq Require Import ZifyBool ZifyN.
 
 Ltac Zify.zify_post_hook ::= Z.div_mod_to_equations.
@@ -22,7 +22,7 @@ Ltac acc :=
     | rewrite (creator_spec uid_ok v r A)
     | rewrite (user_power_level_spec uid_ok v r A)
     | rewrite (int_or_default_spec v r A)
-    | rewrite (event_power_level_spec v r A) ].
+    | match goal with H : events_ok _ |- _ => rewrite (event_power_level_spec v r A _ _ H) end ].
 
 Ltac find_atom b k :=
   lazymatch b with
@@ -265,8 +265,8 @@ Lemma own_levels_typed_spec ev :
   forallb (fun f => is_some (get_as_int r ev f)) all_fields
   && is_some (pl_events r ev) && is_some (pl_notifications r ev).
 Proof.
-  unfold own_levels_typed, pl_events, pl_notifications. rewrite !(get_as_int_map_spec v r A).
-  unfold any_key. fold all_keys.
+  unfold own_levels_typed, pl_notifications. rewrite !(get_as_int_map_spec v r A).
+  unfold any_key. fold all_keys. unfold is_some at 2. rewrite (is_some_pl_events v r A).
   rewrite <- (forallb_fields (fun f => match raw_level v ev f with Some _ => true | None => false end)).
   rewrite (forallb_pointwise (fun f => match raw_level v ev (fmap f) with Some _ => true | None => false end)
              (fun f => is_some (get_as_int r ev f))).
@@ -280,9 +280,10 @@ Proof. now intros -> -> -> ->. Qed.
 
 Lemma power_levels_eq ev current sl :
   (v <=? 9) && negb (own_levels_typed v ev) = false ->
+  events_ok (Some ev) -> events_ok current ->
   check_room_power_levels uid_ok r ev current sl = rule_power_levels uid_ok v ev current sl.
 Proof.
-  intros Hcls. unfold check_room_power_levels, rule_power_levels.
+  intros Hcls [Hs1 Ha1] Hcur. unfold check_room_power_levels, rule_power_levels.
   fold (own_levels_typed v ev).
   assert (Hpre : (if 10 <=? v then own_levels_typed v ev else true) = own_levels_typed v ev).
   { destruct (N.leb_spec 10 v); [reflexivity|].
@@ -291,12 +292,14 @@ Proof.
   destruct (forallb (fun f => is_some (get_as_int r ev f)) all_fields) eqn:Ef.
   2:{ now rewrite (int_fields_map_none _ Ef). }
   destruct (int_fields_map_some _ Ef) as [nif [-> Hnif]]. cbn [andb].
-  unfold pl_events, pl_notifications, pl_users. rewrite !(get_as_int_map_spec v r A).
+  rewrite (pl_events_spec v r A ev Hs1 Ha1).
+  unfold pl_notifications, pl_users. rewrite !(get_as_int_map_spec v r A).
   unfold any_key. fold all_keys.
   destruct (level_map v all_keys ev s!"events") as [nev|]; cbn [is_some andb]; [|reflexivity].
   destruct (level_map v all_keys ev s!"notifications") as [nno|]; cbn [is_some andb]; [|reflexivity].
   destruct (level_map v uid_ok ev s!"users") as [nus|]; [|reflexivity].
-  destruct current as [cur|]; [|reflexivity].
+  destruct current as [cur|]; [|reflexivity]. destruct Hcur as [Hs2 Ha2].
+  rewrite (pl_events_spec v r A cur Hs2 Ha2).
   rewrite (ra_notifications _ _ A), !(get_as_int_map_spec v r A).
   apply andb4.
   - rewrite <- (forallb_fields (fun f =>
@@ -339,12 +342,16 @@ Lemma existsb_pointwise {X} (f g : X -> bool) l :
 Proof. intros H. induction l as [|x l IH]; cbn [existsb]; [reflexivity|]. now rewrite H, IH. Qed.
 
 Theorem auth_eq_spec ev st :
-  wf_inputs v ev -> known_deviation v ev st = false ->
+  wf_inputs v ev st -> known_deviation v ev st = false ->
   auth_check uid_ok sn_ok verify r ev st = spec_auth uid_ok sn_ok verify v ev st.
 Proof.
-  intros Hwf Hkd. unfold known_deviation in Hkd. apply orb_false_iff in Hkd as [Hkd _].
+  intros Hwf Hkd. unfold known_deviation in Hkd. apply orb_false_iff in Hkd as [Hkd Hal].
   apply orb_false_iff in Hkd as [Hpl Hsh].
-  unfold wf_inputs, wf_inputsb in Hwf. unfold pl_strict in Hpl.
+  unfold wf_inputs, wf_inputsb in Hwf. apply andb_true_iff in Hwf as [Hwf Hsc].
+  apply andb_true_iff in Hwf as [Hwf Hse]. unfold pl_strict in Hpl.
+  unfold type_alias in Hal. apply orb_false_iff in Hal as [Hale Halc].
+  assert (Hok : events_ok (st (t_power, []))).
+  { unfold events_ok. destruct (st (t_power, [])); [split; assumption|exact I]. }
   unfold auth_check, auth_prog, spec_auth, is.
   destruct (str_eqb (e_type ev) t_create) eqn:Ecreate; [cbn [run]; apply create_eq|].
   unfold k_create. cbn [run]. destruct (st (t_create, [])) as [ce|]; [|reflexivity].
@@ -361,7 +368,10 @@ Proof.
   (destruct (str_eqb (e_type ev) t_member) eqn:Emember; [now apply member_eq|]);
   crunch;
   first [ fin
-        | apply power_levels_eq; rewrite andb_true_r in Hpl; exact Hpl
+        | apply power_levels_eq;
+          [ rewrite andb_true_r in Hpl; exact Hpl
+          | cbn [andb] in Hale; split; assumption
+          | exact Hok ]
         | apply redaction_eq; cbn [negb orb] in Hwf;
           destruct (eid_server (e_id ev)); discriminate ].
 Qed.
